@@ -122,5 +122,52 @@ def assignments(draw):
     return dict(cli=cli, file=fil)
 
 
+# ------------------------------------------------------------------ end to end: rerun from the saved .cfg
+def run_cli(case):
+    from vlib import cli, cfggen
+    wd = cli.scratch("c13")
+    o = dict(case["opts"])
+    infile = {k: o.pop(k) for k in case["in_file"] if k in o}
+    args = ["-o", "o.h5"] + cli.optargs(o)
+    if infile:
+        with open(os.path.join(wd, "parent.cfg"), "w") as f:
+            for k, v in infile.items():
+                if isinstance(v, list):
+                    for x in v:
+                        f.write("%s=%s\n" % (k, cli.fmt(x)))
+                else:
+                    f.write("%s=%s\n" % (k, cli.fmt(v)))
+        args = ["-c", "parent.cfg"] + args
+    else:
+        args = ["-c", "/dev/null"] + args
+    r1 = cli.run(args, wd)
+    if r1.rc != 0 or "Finished." not in r1.out:
+        return Outcome(False, True, ["cli"], "run failed: %s %s" % (r1.out[-300:], r1.err[-300:]), sig="c13:cli:runfail")
+    r2 = cli.run(["--config", "o.h5.cfg", "-o", "o2.h5"], wd)
+    if r2.rc != 0 or "Finished." not in r2.out:
+        cfg = open(os.path.join(wd, "o.h5.cfg")).read()
+        return Outcome(False, True, ["cli"], "rerun from the saved configuration failed: %s %s\n%s" % (r2.out[-300:], r2.err[-300:], cfg[:800]), sig="c13:cli:rerunfail")
+    h1, h2 = cli.H5(os.path.join(wd, "o.h5")), cli.H5(os.path.join(wd, "o2.h5"))
+    cls = ["cli", "parentcfg" if infile else "cliopts", "nb%d" % len([x for x in o.get("BunchCurrent", infile.get("BunchCurrent", [1])) if x > 0])]
+    for ds in ("/PhaseSpace/data", "/BunchProfile/data", "/Info/AxisValues_t", "/Info/AxisValues_z", "/Info/AxisValues_E", "/WakePotential/data", "/CSR/Intensity/data"):
+        if ds in h1.ds:
+            if ds not in h2.ds or h1[ds].shape != h2[ds].shape or (h1[ds].view(np.uint8) != h2[ds].view(np.uint8)).any():
+                cfg = open(os.path.join(wd, "o.h5.cfg")).read()
+                return Outcome(False, True, cls, "rerunning with the saved .cfg does not reproduce %s (options %s, parent file %s)\n%s" % (ds, o, infile, cfg[:1200]), sig="c13:cli:%s" % ds)
+    return Outcome(True, True, cls)
+
+
+@st.composite
+def cli_cases(draw):
+    from vlib import cfggen
+    o = draw(cfggen.base_config(nmin=16, nmax=40, min_laststep=3, max_laststep=30))
+    o["outstep"] = draw(st.sampled_from([1, 3]))
+    o["FPTrack"] = 0
+    keys = sorted(o)
+    in_file = draw(st.lists(st.sampled_from(keys), max_size=len(keys), unique=True)) if draw(st.booleans()) else []
+    return dict(opts=o, in_file=in_file)
+
+
 def subs(tier):
-    return [Sub("roundtrip", assignments(), run_roundtrip, quick=4000, thorough=150000)]
+    return [Sub("roundtrip", assignments(), run_roundtrip, quick=12000, thorough=150000),
+            Sub("cli", cli_cases(), run_cli, quick=144, thorough=400, needs=("rel", "h5x", "shim"), shrink_budget=16)]
